@@ -255,7 +255,10 @@ func c15Build(c C15Case) (items []map[string]any, invalid map[int]string) {
 		case "headers-too-large":
 			m["headers"] = map[string]string{"X-Big": strings.Repeat("h", 200)}
 		case "bad-header-name":
-			m["headers"] = map[string]string{"bad name": "v"}
+			// not an HTTP token: a blank inside, a control character, or a non-ASCII letter (also one whose
+			// code point ends in the byte of a token character)
+			names := []string{"bad name", "X-\x7f", "X-\u4e2d", "\u0141", "\u2030name", "X-\u00e9", "a:b", "(x)"}
+			m["headers"] = map[string]string{names[(i+it.PayLen+it.Hdr+it.TS)%len(names)]: "v"}
 		case "bad-header-value":
 			m["headers"] = map[string]string{"X-A": "a\r\nInjected: 1"}
 		case "bad-received-at":
